@@ -76,7 +76,8 @@ def matcher_loop():
         raise Refuse("naive loop header " + ast.unparse(lp.target))
     how = _candidates(f, lp, "naive")
     calls = {
-        "labelmap.contains_or": lambda a, k=None: _args(a, ["p", "r"], ("cor", "bool")),
+        # contains_or(pred, ref) is gen_contains_or of the two memberships that contains_pred / contains_ref return
+        "labelmap.contains_or": lambda a, k=None: _args(a, ["p", "r"], ("(gen_contains_or cp cr)", "bool")),
         "labelmap.contains_pred": lambda a, k=None: _args(a, ["p"], ("cp", "bool")),
         "labelmap.contains_ref": lambda a, k=None: _args(a, ["r"], ("cr", "bool")),
         "self._matching_metric.score_beats_threshold": lambda a, k=None: _args(a, ["s", "thr"], ("beat", "bool")),
@@ -84,7 +85,8 @@ def matcher_loop():
     env = {"pred_label": ("p", "lab"), "ref_label": ("r", "lab"), "matching_score": ("s", "sc"),
            "self._matching_threshold": ("thr", "sc"), "self._allow_many_to_one": ("m2o", "bool")}
     out.append("Inductive gen_action := GSkip | GAdd | GNone.")
-    out.append("Definition gen_naive_step (m2o cor cp beat : bool) : gen_action := " + _loop_body(lp.body, Tr(env, calls)) + ".")
+    out.append("(* cp = contains_pred(pred_label), cr = contains_ref(ref_label) *)")
+    out.append("Definition gen_naive_step (m2o cp cr beat : bool) : gen_action := " + _loop_body(lp.body, Tr(env, calls)) + ".")
     # what comes before the loop: candidates computed by _calc_matching_metric_of_overlapping_labels(pred, ref, ref_labels, metric)
     src = ast.unparse(f)
     if how == "named" and "pred_arr, ref_arr = (unmatched_instance_pair.prediction_arr, unmatched_instance_pair.reference_arr)" not in src:
